@@ -21,8 +21,19 @@ Sub(x, y) == (x - y + M) % M     \* unsigned - wraps
 VARIABLES size, o, c, fn         \* one state = one call fn(o, c) on a span of `size` elements
 vars == <<size, o, c, fn>>
 
-Fns == {"first", "last", "subspan", "index", "at"}
-Init == size \in 0..(MAXW - 1) /\ o \in Word /\ c \in Word /\ fn \in Fns
+(* two's complement reading of a word: the template arguments Count and Offset are std::ptrdiff_t *)
+Signed(x) == IF x >= M \div 2 THEN x - M ELSE x
+Unsigned(z) == (z + M) % M       \* conversion of a signed value in -M/2 .. M/2-1 to index_type
+(* ptrdiff_t + ptrdiff_t: the mathematical sum if it is representable; otherwise the addition overflows (undefined    *)
+(* behaviour in C++; gcc and clang fold the constant with wrap-around and warn) - modelled as the wrapped value, so *)
+(* that TLC shows the check still rejects in that case                                                              *)
+WrapS(z) == Signed(Unsigned(((z % M) + M) % M))
+
+Fns == {"first", "last", "subspan", "index", "at", "firstS", "lastS", "subspanS"}
+(* sizes of real spans are at most PTRDIFF_MAX (a view of more elements cannot exist): 0 .. M/2 - 1 for the template *)
+(* forms, whose arguments are signed; the run-time forms are checked for every size below SIZE_MAX                  *)
+Init == /\ size \in 0..(MAXW - 1) /\ o \in Word /\ c \in Word /\ fn \in Fns
+        /\ fn \in {"firstS", "lastS", "subspanS"} => size < M \div 2
 Next == UNCHANGED vars
 Spec == Init /\ [][Next]_vars
 
@@ -33,10 +44,20 @@ ImplOK ==
       [] fn = "subspan" -> o <= size /\ (c = MAXW \/ c <= Sub(size, o))          \* xspan_impl.hpp subspan(offset, count)
       [] fn = "index"   -> o < size                                              \* idx >= 0 && idx < size()
       [] fn = "at"      -> ~(o >= size)                                          \* throws iff idx < 0 || idx >= size()
+      \* template forms: Count >= 0 && Count <= size()  (Count is converted to index_type for the second comparison)
+      [] fn = "firstS"  -> Signed(c) >= 0 /\ Unsigned(Signed(c)) <= size
+      [] fn = "lastS"   -> Signed(c) >= 0 /\ Unsigned(Signed(c)) <= size
+      \* (Offset >= 0 && Offset <= size()) && (Count == dynamic_extent || (Count >= 0 && Offset + Count <= size())):
+      \* Offset + Count is a signed addition, its result is converted to index_type
+      [] fn = "subspanS" -> /\ Signed(o) >= 0 /\ Unsigned(Signed(o)) <= size
+                            /\ (Signed(c) = -1 \/ (Signed(c) >= 0 /\ Unsigned(WrapS(Signed(o) + Signed(c))) <= size))
 ImplView ==
     CASE fn = "first"   -> [off |-> 0, len |-> c]                                \* {data(), count}
       [] fn = "last"    -> [off |-> Sub(size, c), len |-> c]                     \* {data() + (size() - count), count}
       [] fn = "subspan" -> [off |-> o, len |-> IF c = MAXW THEN Sub(size, o) ELSE c]
+      [] fn = "firstS"  -> [off |-> 0, len |-> c]
+      [] fn = "lastS"   -> [off |-> Sub(size, c), len |-> c]
+      [] fn = "subspanS" -> [off |-> o, len |-> IF c = MAXW THEN Sub(size, o) ELSE c]
       [] OTHER          -> [off |-> o, len |-> 1]                                \* *(data() + idx)
 (* the check as it stood before the repair (proposed_fixes/C16-01): the sum wraps *)
 OldSubspanOK == o <= size /\ (c = MAXW \/ Add(o, c) <= size)
@@ -46,11 +67,17 @@ SpecOK ==
     CASE fn = "first"   -> c <= size
       [] fn = "last"    -> c <= size
       [] fn = "subspan" -> o <= size /\ (c = MAXW \/ o + c <= size)
+      \* template arguments are mathematical integers in -M/2 .. M/2-1; -1 is dynamic_extent
+      [] fn \in {"firstS", "lastS"} -> Signed(c) >= 0 /\ Signed(c) <= size
+      [] fn = "subspanS" -> Signed(o) >= 0 /\ Signed(o) <= size /\ (Signed(c) = -1 \/ (Signed(c) >= 0 /\ Signed(o) + Signed(c) <= size))
       [] OTHER          -> o < size
 SpecView ==
     CASE fn = "first"   -> [off |-> 0, len |-> c]
       [] fn = "last"    -> [off |-> size - c, len |-> c]
       [] fn = "subspan" -> [off |-> o, len |-> IF c = MAXW THEN size - o ELSE c]
+      [] fn = "firstS"  -> [off |-> 0, len |-> c]
+      [] fn = "lastS"   -> [off |-> size - c, len |-> c]
+      [] fn = "subspanS" -> [off |-> o, len |-> IF c = MAXW THEN size - o ELSE c]
       [] OTHER          -> [off |-> o, len |-> 1]
 
 Refines == /\ ImplOK <=> SpecOK
